@@ -25,6 +25,7 @@ CONSTANTS
   MaxSteps = 0
   RationalOnly = TRUE
   Twins = FALSE
+  SetOnce = FALSE
   Chain = FALSE
   NeedDt = FALSE
   BindLeaves = TRUE
